@@ -16,15 +16,16 @@ Import ListNotations.
 Local Open Scope R_scope.
 
 (* ---------------------------------------------------------------- forward *)
-(* every point returned by vector2xy(pole) comes from a vector that passed the
-   hemisphere test; if that vector lies on the closed far hemisphere the point is
-   in the CLOSED UNIT DISK whatever its length; in general (the test tolerates
-   -pole*z > -1e-9 on the vector as given) the squared radius is at most
-   (n + 1e-9)/(n - 1e-9) for a vector of length n > 1e-9 *)
+(* every point returned by vector2xy(pole) comes from a vector whose UNIT vector
+   passed the hemisphere test (selu); whatever the length of that vector, the
+   squared radius is at most (1 + 1e-9)/(1 - 1e-9) (the test tolerates
+   -pole*z > -1e-9 on the unit vector), and if the vector lies on the closed far
+   hemisphere the point is in the CLOSED UNIT DISK -- all lengths, the zero vector
+   included (it is returned at the origin) *)
 Theorem C20_forward_disk : forall p vs X Y, is_pole p -> In (X, Y) (vector2xy ROps p vs) ->
-  exists v, In v vs /\ sel p v = true /\ (X, Y) = project1 ROps p v /\
-    (eps9 < nrm v -> X * X + Y * Y <= (nrm v + eps9) / (nrm v - eps9)) /\
-    (nrm v <> 0 -> p * snd v <= 0 -> X * X + Y * Y <= 1).
+  exists v, In v vs /\ selu p v = true /\ (X, Y) = project1 ROps p v /\
+    X * X + Y * Y <= (1 + eps9) / (1 - eps9) /\
+    (p * snd v <= 0 -> X * X + Y * Y <= 1).
 Proof. exact forward_disk. Qed.
 Print Assumptions C20_forward_disk.
 
@@ -33,7 +34,7 @@ Example C20_forward_disk_nonvacuous :
 Proof.
   split; [right; reflexivity |].
   apply in_vector2xy. exists (0, 0, 1). split; [left; reflexivity | split].
-  - apply sel_true. unfold eps9. lra.
+  - unfold selu. rewrite vunit_of_unit by (simpl; lra). apply sel_true. unfold eps9. lra.
   - unfold project1. rewrite vunit_of_unit by (simpl; lra). rewrite k_value by lra.
     f_equal; field.
 Qed.
@@ -54,20 +55,25 @@ Theorem C20_pole_guard : forall x y p, vector2xy_k ROps x y p p = (0, 0).
 Proof. exact k_at_pole. Qed.
 Print Assumptions C20_pole_guard.
 
-(* the hemisphere test is made on the vector AS GIVEN: the full-strength clause
-   "points in the closed unit disk for all non-unit vectors" is REFUTED by the
-   faithful model -- (3e-10, 0, -4e-10) points into the lower hemisphere (unit
-   vector (0.6, 0, -0.8)), passes the upper-hemisphere test and lands at (3, 0);
-   in fact every vector shorter than 1e-9 passes the test of both hemispheres *)
-Theorem C20_disk_short_vector_refuted :
-  exists v : vec3 (T:=R), sel (-1) v = true /\ project1 ROps (-1) v = (3, 0).
-Proof. eexists; exact short_vector_outside_disk. Qed.
-Print Assumptions C20_disk_short_vector_refuted.
+(* the hemisphere test is made on the UNIT vector (repaired: it used to be made on
+   the vector as given, so that every vector shorter than 1e-9 passed the test of
+   both hemispheres): the selection depends on the direction only, it is the test
+   -pole * z > -1e-9 |v|, and only vectors within 1e-9 |v| of the equator are
+   selected for both hemispheres *)
+Theorem C20_selection_on_unit_vector : forall p k x y z,
+  is_pole p -> 0 < k -> nrm (x, y, z) <> 0 ->
+  selu p (k * x, k * y, k * z) = selu p (x, y, z) /\
+  (selu p (x, y, z) = true <-> - eps9 * nrm (x, y, z) < - p * z) /\
+  (selu (-1) (x, y, z) = true -> selu 1 (x, y, z) = true -> Rabs z < eps9 * nrm (x, y, z)).
+Proof. exact selection_spec. Qed.
+Print Assumptions C20_selection_on_unit_vector.
 
-Theorem C20_short_vectors_pass_both_tests : forall p x y z,
-  is_pole p -> nrm (x, y, z) < eps9 -> sel p (x, y, z) = true.
-Proof. exact sel_short. Qed.
-Print Assumptions C20_short_vectors_pass_both_tests.
+(* the former counterexample (3e-10, 0, -4e-10), unit vector (0.6, 0, -0.8): not
+   returned for the upper hemisphere, returned for the lower one at (1/3, 0) *)
+Example C20_short_vector_selection :
+  let v : vec3 (T:=R) := (3 / 10000000000, 0, - 4 / 10000000000) in
+  selu (-1) v = false /\ selu 1 v = true /\ project1 ROps 1 v = (1 / 3, 0).
+Proof. exact short_vector_selection. Qed.
 
 (* --------------------------------------------------------------- inverse *)
 (* the inverse projection recovers every unit vector but the projection point *)
@@ -77,11 +83,12 @@ Proof. exact inverse_of_forward. Qed.
 Print Assumptions C20_inverse_of_forward.
 
 (* array level, non-unit input: every returned point maps back to the unit
-   vector of the vector it came from (outside the short-vector finding) *)
-Theorem C20_roundtrip_outside_finding : forall p vs P, is_pole p -> In P (vector2xy ROps p vs) ->
-  exists v, In v vs /\ P = project1 ROps p v /\ (eps9 <= nrm v -> xy2vec ROps p P = vunit ROps v).
+   vector of the vector it came from, whatever its (non-zero) length *)
+Theorem C20_roundtrip : forall p vs P, is_pole p -> In P (vector2xy ROps p vs) ->
+  exists v, In v vs /\ selu p v = true /\ P = project1 ROps p v /\
+    (nrm v <> 0 -> xy2vec ROps p P = vunit ROps v).
 Proof. exact forward_roundtrip. Qed.
-Print Assumptions C20_roundtrip_outside_finding.
+Print Assumptions C20_roundtrip.
 
 (* every plane point is the image of its inverse image, which is a unit vector
    different from the projection point, on the far closed hemisphere iff the
@@ -110,22 +117,24 @@ Print Assumptions C20_normalisation.
 (* ----------------------------------------------------------------- split *)
 Theorem C20_split_upper : forall vs P,
   In P (fst (vector2xy_split ROps vs)) <->
-  exists v, In v vs /\ - eps9 < snd v /\ P = project1 ROps (-1) v.
+  exists v, In v vs /\ - eps9 < snd (vunit ROps v) /\ P = project1 ROps (-1) v.
 Proof. exact split_upper. Qed.
 Print Assumptions C20_split_upper.
 
 Theorem C20_split_lower : forall vs P,
   In P (snd (vector2xy_split ROps vs)) <->
-  exists v, In v vs /\ snd v < eps9 /\ P = project1 ROps 1 v.
+  exists v, In v vs /\ snd (vunit ROps v) < eps9 /\ P = project1 ROps 1 v.
 Proof. exact split_lower. Qed.
 Print Assumptions C20_split_lower.
 
 (* z >= 0 is selected for the upper set, z <= 0 for the lower set (equatorial
-   vectors for both), every vector for at least one; |z| >= 1e-9 for only one *)
+   vectors for both), every vector for at least one; |z| >= 1e-9 |v| for only one,
+   whatever the length |v| > 0 *)
 Theorem C20_split_cover : forall v : vec3 (T:=R),
-  (0 <= snd v -> sel (-1) v = true) /\ (snd v <= 0 -> sel 1 v = true) /\
-  (sel (-1) v = true \/ sel 1 v = true) /\
-  (eps9 <= snd v -> sel 1 v = false) /\ (snd v <= - eps9 -> sel (-1) v = false).
+  (0 <= snd v -> selu (-1) v = true) /\ (snd v <= 0 -> selu 1 v = true) /\
+  (selu (-1) v = true \/ selu 1 v = true) /\
+  (nrm v <> 0 -> eps9 * nrm v <= snd v -> selu 1 v = false) /\
+  (nrm v <> 0 -> snd v <= - eps9 * nrm v -> selu (-1) v = false).
 Proof. exact split_cover. Qed.
 Print Assumptions C20_split_cover.
 
@@ -146,41 +155,57 @@ Theorem C20_spherical_ranges : forall x y z,
 Proof. intros. split; [apply azimuth_range | apply polar_range]. Qed.
 Print Assumptions C20_spherical_ranges.
 
-(* Cartesian -> spherical -> Cartesian, any non-zero length, radians and degrees,
-   outside the snapping band 0 < |x|,|y| <= 1e-8 of Vector3d.azimuth *)
-Theorem C20_cart_sph_cart_outside_finding : forall deg x y z,
-  0 < nrm (x, y, z) -> nosnap x -> nosnap y ->
-  polar2vec_r ROps deg (vec2polar ROps deg (x, y, z)) = (x, y, z).
-Proof. intros [|]; [exact cart_sph_cart_deg | exact cart_sph_cart_rad]. Qed.
-Print Assumptions C20_cart_sph_cart_outside_finding.
+(* Cartesian -> spherical -> Cartesian, EVERY non-zero vector of any length,
+   radians and degrees: z and x^2 + y^2 come back exactly (to_polar reads polar
+   and radial from the vector as given; Vector3d.azimuth rounds copies), x and y
+   up to the rounding of the azimuth, at most 3e-8 |v| *)
+Theorem C20_cart_sph_cart : forall deg x y z, 0 < nrm (x, y, z) ->
+  let '(x', y', z') := polar2vec_r ROps deg (vec2polar ROps deg (x, y, z)) in
+  z' = z /\ x' * x' + y' * y' = x * x + y * y /\
+  Rabs (x' - x) <= 3 * tol8 * nrm (x, y, z) /\ Rabs (y' - y) <= 3 * tol8 * nrm (x, y, z).
+Proof. exact cart_sph_cart_all. Qed.
+Print Assumptions C20_cart_sph_cart.
 
-Example C20_cart_sph_cart_nonvacuous : 0 < nrm (0, 3, -4) /\ nosnap 0 /\ nosnap 3.
+(* ... and EXACTLY when x and y are zero or larger than 1e-8 |v| (the rounding band
+   of Vector3d.azimuth is relative to the length of the vector) *)
+Theorem C20_cart_sph_cart_exact : forall deg x y z,
+  0 < nrm (x, y, z) -> nosnapr (nrm (x, y, z)) x -> nosnapr (nrm (x, y, z)) y ->
+  polar2vec_r ROps deg (vec2polar ROps deg (x, y, z)) = (x, y, z).
+Proof. exact cart_sph_cart_exact. Qed.
+Print Assumptions C20_cart_sph_cart_exact.
+
+Example C20_cart_sph_cart_nonvacuous :
+  0 < nrm (0, 3, -4) /\ nosnapr (nrm (0, 3, -4)) 0 /\ nosnapr (nrm (0, 3, -4)) 3.
 Proof.
-  split; [| split; [left; reflexivity | right; unfold tol8; rewrite Rabs_right; lra]].
   pose proof (nrm_sq 0 3 (-4)) as E. pose proof (nrm_nonneg (0, 3, -4)) as H.
-  destruct H as [H | H]; [exact H |]. rewrite <- H in E. lra.
+  assert (Hn : nrm (0, 3, -4) = 5) by nra.
+  rewrite Hn. split; [lra | split; [left; reflexivity | right; unfold tol8; rewrite Rabs_right; lra]].
 Qed.
 
-(* inside the band the faithful model REFUTES the round trip: (1e-9, 1e-9, 0) has
-   positive length, to_polar reports radius 0 (azimuth zeroes x and y in place
-   before polar and radial are computed) and from_polar does not give it back *)
-Theorem C20_cart_sph_cart_snap_band_refuted :
-  exists v : vec3 (T:=R), 0 < nrm v /\ snd (vec2polar ROps false v) = 0 /\
-    polar2vec_r ROps false (vec2polar ROps false v) <> v.
-Proof. eexists; exact snap_band_breaks_roundtrip. Qed.
-Print Assumptions C20_cart_sph_cart_snap_band_refuted.
+(* the radius reported by to_polar is the length of the vector as given, and the
+   former counterexample of the absolute 1e-8 band, (1e-9, 1e-9, 0) (it used to
+   come out with radius 0), round-trips exactly *)
+Theorem C20_radius_kept : forall deg x y z, snd (vec2polar ROps deg (x, y, z)) = nrm (x, y, z).
+Proof. exact radius_kept. Qed.
+Print Assumptions C20_radius_kept.
 
-(* spherical -> Cartesian -> spherical: r > 0, polar strictly between the poles,
-   azimuth in [0, 2pi) resp. [0, 360) *)
+Example C20_short_vector_roundtrip :
+  let v : vec3 (T:=R) := (1 / 1000000000, 1 / 1000000000, 0) in
+  0 < nrm v /\ polar2vec_r ROps false (vec2polar ROps false v) = v.
+Proof. exact short_vector_roundtrip. Qed.
+
+(* spherical -> Cartesian -> spherical: ANY radius r > 0, polar strictly between
+   the poles, azimuth in [0, 2pi) resp. [0, 360), direction cosines x/r, y/r zero or
+   larger than 1e-8 (the hypothesis no longer depends on r) *)
 Theorem C20_sph_cart_sph_rad : forall a t r, 0 < r -> 0 < t < PI -> 0 <= a < 2 * PI ->
-  nosnap (r * (cos a * sin t)) -> nosnap (r * (sin a * sin t)) ->
+  nosnap (cos a * sin t) -> nosnap (sin a * sin t) ->
   vec2polar ROps false (polar2vec_r ROps false (a, t, r)) = (a, t, r).
 Proof. exact sph_cart_sph_rad. Qed.
 Print Assumptions C20_sph_cart_sph_rad.
 
 Theorem C20_sph_cart_sph_deg : forall a t r, 0 < r -> 0 < t < 180 -> 0 <= a < 360 ->
-  nosnap (r * (cos (a * (PI / 180)) * sin (t * (PI / 180)))) ->
-  nosnap (r * (sin (a * (PI / 180)) * sin (t * (PI / 180)))) ->
+  nosnap (cos (a * (PI / 180)) * sin (t * (PI / 180))) ->
+  nosnap (sin (a * (PI / 180)) * sin (t * (PI / 180))) ->
   vec2polar ROps true (polar2vec_r ROps true (a, t, r)) = (a, t, r).
 Proof. exact sph_cart_sph_deg. Qed.
 Print Assumptions C20_sph_cart_sph_deg.
@@ -297,13 +322,13 @@ Print Assumptions C20_pdf_total.
 
 (* ... and the samples in the grid are exactly the vectors of the hemisphere:
    upper grid (polar edges 0 .. pi/2): non-zero and z >= 0; lower grid
-   (pi/2 .. pi): non-zero and z <= 0 (equatorial vectors in both); "non-zero"
-   is after the in-place snap of Vector3d.azimuth, see the snap-band finding *)
+   (pi/2 .. pi): non-zero and z <= 0 (equatorial vectors in both); vectors of any
+   length are counted *)
 Theorem C20_counted_vectors : forall ea ep x y z w,
   (grid_ok ea ep 0 (PI / 2) ->
-   (cell ROps ea ep (angles ROps (x, y, z), w) <> None <-> 0 < nrm (snap x, snap y, z) /\ 0 <= z)) /\
+   (cell ROps ea ep (angles ROps (x, y, z), w) <> None <-> 0 < nrm (x, y, z) /\ 0 <= z)) /\
   (grid_ok ea ep (PI / 2) PI ->
-   (cell ROps ea ep (angles ROps (x, y, z), w) <> None <-> 0 < nrm (snap x, snap y, z) /\ z <= 0)).
+   (cell ROps ea ep (angles ROps (x, y, z), w) <> None <-> 0 < nrm (x, y, z) /\ z <= 0)).
 Proof. intros. split; [apply counted_upper | apply counted_lower]. Qed.
 Print Assumptions C20_counted_vectors.
 
